@@ -350,8 +350,12 @@ theorem regInv_handleRestart (s : Sys) (self : Cid) (hi : RegInv (some self) s) 
       (regInv_settle _ self (fun x => { x with zombie := true, paused := false }) (fun _ => rfl) (fun _ => Or.inr rfl) h1)
   · have h2 := regInv_settle _ self (fun x => { x with restarting := none, state := .running, inc := x.inc + 1 })
       (fun _ => rfl) (fun _ => Or.inl (by simp)) h1
-    exact regInv_sameCore (((sameCore_tell _ _ _ _ _).trans
-      (sameCore_upd _ self (fun x => { x with paused := false }) (fun _ => ⟨rfl, rfl, rfl⟩))).trans (sameCore_say _ _)) h2
+    split
+    · -- repaired: unpause, log, run the new incarnation's OnLaunch right here
+      apply regInv_execRecover
+      exact regInv_sameCore ((sameCore_upd _ self (fun x => { x with paused := false }) (fun _ => ⟨rfl, rfl, rfl⟩)).trans (sameCore_say _ _)) h2
+    · exact regInv_sameCore (((sameCore_tell _ _ _ _ _).trans
+        (sameCore_upd _ self (fun x => { x with paused := false }) (fun _ => ⟨rfl, rfl, rfl⟩))).trans (sameCore_say _ _)) h2
 
 end Vivid.ActorSys
 
